@@ -42,13 +42,13 @@ type Violation struct {
 }
 
 type Job struct {
-	Name  string
-	Pkg   string
-	Func  string
-	Args  []int64
-	Opts  JobOpts
-	fn    *ssa.Function
-	mu    sync.Mutex
+	Name              string
+	Pkg               string
+	Func              string
+	Args              []int64
+	Opts              JobOpts
+	fn                *ssa.Function
+	mu                sync.Mutex
 	Paths, Forks, Cut int64
 	Instrs            int64
 	Asserts           map[string]*AssertStat
@@ -65,11 +65,11 @@ type Job struct {
 }
 
 type JobOpts struct {
-	MaxInstrs int  `json:"max_instrs,omitempty"`
-	LoopFuel  int  `json:"loop_fuel,omitempty"`
-	AllPerms  bool `json:"all_perms,omitempty"`
-	NoSummary bool `json:"no_summary,omitempty"`
-	QueryTimeoutS int `json:"query_timeout_s,omitempty"`
+	MaxInstrs     int  `json:"max_instrs,omitempty"`
+	LoopFuel      int  `json:"loop_fuel,omitempty"`
+	AllPerms      bool `json:"all_perms,omitempty"`
+	NoSummary     bool `json:"no_summary,omitempty"`
+	QueryTimeoutS int  `json:"query_timeout_s,omitempty"`
 }
 
 func (j *Job) inconclusive(msg string) {
@@ -369,7 +369,7 @@ func (w *Worker) report(st *State, id, kind string, cond Term) {
 	}
 	res, model := w.sol.model(st.pc, cond, syms)
 	if res != "sat" {
-		j.inconclusive("model query for " + id + ": " + strings.Fields(res+" ?")[0])
+		j.inconclusive("model query for " + id + ": " + strings.Fields(res + " ?")[0])
 		return
 	}
 	vec := make([]VecEntry, 0, len(st.nondets))
